@@ -127,6 +127,28 @@ def chunk_name_order_cases(rng, n=2):
     return out
 
 
+def very_wide_case(rng):
+    """
+    300 children under the root, 1200 cells in a single chunk of a single
+    worker: more than 256 different children are chosen at once
+    """
+    spec = _common_random(rng, 2, 600)
+    spec.update({'wide_root': 330, 'n_levels': 2, 'n_leaves': 660,
+                 'marker_kmin': 60, 'marker_kmax': 90,
+                 'seed': int(rng.integers(0, 2 ** 31)), 'n_cells': 1600,
+                 'chunk_size': 5000, 'n_processors': 1,
+                 'bootstrap_iteration': 2, 'bootstrap_factor': 0.9,
+                 'n_genes': 300, 'n_runners_up': 2, 'separable': True,
+                 'noise': 0.3, 'cell_id_style': 'plain',
+                 'n_extra_genes': None, 'marker_class': 'complete',
+                 'h5_layout': None, 'unsorted_indices': None,
+                 'query_order': None, 'encoding': 'csr',
+                 'normalization': 'log2CPM', 'min_markers': 3})
+    spec.pop('flatten', None)
+    spec.pop('drop_level_index', None)
+    return spec
+
+
 def exhaustive_shape_cases(rng, per_shape_variants=True):
     """all 470 shapes x {plain, flatten, each droppable level}"""
     shapes = shape_info()
